@@ -24,6 +24,10 @@
 (* HP "{n+}CRLF", H8P "~{n+}CRLF" (n = byte length of the value, opaque),   *)
 (* plus RP ")" in suffixes.                                                 *)
 (*                                                                         *)
+(* Not in the class model: the one length-dependent decision              *)
+(* (LiteralString._check_too_big, 4096 bytes outside APPEND); the check     *)
+(* probes it at the boundary (4096 / 4097 bytes, every spelling).           *)
+(*                                                                         *)
 (* Laws: every legal spelling followed by any suffix parses to <<v, suffix>>*)
 (* (same value, consumes exactly its own bytes); the re-serialisation       *)
 (* bytes(parse(x)) parses to <<v, empty>>; a command line whose last        *)
